@@ -32,7 +32,7 @@ mon = SerialMonitor(9600)
 FREQS = [-100, 0, 0.4, 31, 440, 4000.5, 262, 1000]
 DURS = [-5, 0, 1, 50, 20, 7.5]
 COUNTS = [-1, 0, 1, 2, 7, 3]
-TEMPOS = [-60, 0, 30, 240, 120, 500]
+TEMPOS = [-60, 0, 30, 240, 120, 500, 97.5, 62.5, 0.75, 1.5]
 
 
 def lit(x):
@@ -59,6 +59,7 @@ def gen(rng, positive_only):
     calls = []
     nvar = [0]
     body = []
+    defs = []
 
     def arg(v):
         if rng.random() < 0.45:
@@ -73,6 +74,7 @@ def gen(rng, positive_only):
             return rng.choice(cand)
         return rng.choice(pool)
 
+    in_loop = rng.random() < 0.3
     n_calls = rng.randint(3, 10)
     for k in range(n_calls):
         name, pin, df = rng.choice(buzzers)
@@ -126,14 +128,19 @@ def gen(rng, positive_only):
                 a, rt = arg(tp)
                 body.append(f"{name}.melody(\"{spelled}\", tempo={a})")
                 c.update(melody=m, tempo=tp, runtime=rt)
+        if rng.random() < 0.2 and not in_loop:
+            # the call is made from inside a user helper: the buzzer's state variables are the same ones
+            call_line = body.pop()
+            defs.extend([f"def act{k}():", "    " + call_line, "    return 1", ""])
+            body.append(f"r{k} = act{k}()")
         body.append(f"mon.write(\"@{k}\")")
         body.append(f"mon.write(int({name}.get_state()))")
         body.append(f"mon.write({name}.get_frequency())")
         body.append(f"mon.write({name}.get_last_frequency())")
         calls.append(c)
-    in_loop = rng.random() < 0.3
     rebind = None
-    if not in_loop and nb == 1 and len(calls) >= 4 and rng.random() < 0.3:
+    lines += defs
+    if not in_loop and nb == 1 and len(calls) >= 4 and rng.random() < 0.3 and not defs:
         # the same buzzer name re-bound to another pin half-way: earlier calls drive the first pin, later calls the new one
         cut = len(calls) // 2
         new_pin = 10
